@@ -45,7 +45,7 @@ func ipsFromRules(resRules []*filtering.ResultRule) (ips []netip.Addr) {
 }
 
 // genDNSFilterMessage generates a filtered response to req for the filtering
-// result res.
+// result res.  s.serverLock is expected to be locked.
 func (s *Server) genDNSFilterMessage(
 	dctx *proxy.DNSContext,
 	res *filtering.Result,
@@ -291,6 +291,9 @@ func (s *Server) makeResponseNullIP(req *dns.Msg) (resp *dns.Msg) {
 	return resp
 }
 
+// genBlockedHost generates a response to request with the addresses of the
+// block host newAddr, resolving it if it is a hostname.  s.serverLock is
+// expected to be locked.
 func (s *Server) genBlockedHost(request *dns.Msg, newAddr string, d *proxy.DNSContext) *dns.Msg {
 	if newAddr == "" {
 		log.Info("dnsforward: block host is not specified")
@@ -314,7 +317,9 @@ func (s *Server) genBlockedHost(request *dns.Msg, newAddr string, d *proxy.DNSCo
 		Req:   &replReq,
 	}
 
-	prx := s.proxy()
+	// Do not use s.proxy here, since s.serverLock is already locked for reading
+	// and locking it again deadlocks when a writer is waiting in between.
+	prx := s.dnsProxy
 	if prx == nil {
 		log.Debug("dnsforward: %s", srvClosedErr)
 
